@@ -4,6 +4,9 @@ package kernel
 
 import (
 	"fmt"
+	"os"
+	"sort"
+	"strings"
 	"testing"
 	"time"
 
@@ -65,6 +68,182 @@ func (a *vpC20View) equal(b *vpC20View) string {
 	return ""
 }
 
+// vpC20Ctx is the bookkeeping of one history: every final round seen so far,
+// the classes reached and the trace.
+type vpC20Ctx struct {
+	e        *vpC16Env
+	finals   []vpC20Final
+	classes  map[string]bool
+	okChains map[int]int
+	trace    []string
+}
+
+func (x *vpC20Ctx) known(h crypto.Hash) *vpC20Final {
+	for i := range x.finals {
+		if x.finals[i].hash == h {
+			return &x.finals[i]
+		}
+	}
+	return nil
+}
+
+func (x *vpC20Ctx) note(ci int) {
+	ch := x.e.k.Node.getOrCreateChain(x.e.net.NodeIds[ci])
+	if ch == nil || ch.State == nil {
+		return
+	}
+	if x.known(ch.State.FinalRound.Hash) == nil {
+		x.finals = append(x.finals, vpC20Final{ci, ch.State.FinalRound.Number, ch.State.FinalRound.Hash})
+	}
+}
+
+// attempt tries one round start or empty-head reference update on chain ci with
+// drawn references and judges it (the oracle of C20).
+func (x *vpC20Ctx) attempt(t *rapid.T, ci int, si int) {
+	e, classes, okChains := x.e, x.classes, x.okChains
+	known, note := x.known, x.note
+	finals := x.finals
+	trace := x.trace
+	defer func() { x.trace = trace }()
+	store := e.k.Node.persistStore
+	id := e.net.NodeIds[ci]
+	chain := e.k.Node.getOrCreateChain(id)
+	flagDraw := func() bool { return rapid.Bool().Draw(t, "flag") }
+	_ = flagDraw
+		before, err := vpC20Observe(e, ci)
+		if err != nil {
+			t.Fatal(err)
+		}
+		cache, final := chain.StateCopy()
+		// references
+		refs := &common.RoundLink{}
+		var wantSelf crypto.Hash
+		startRound := len(cache.Snapshots) > 0
+		if startRound {
+			_, _, h := common.ComputeRoundHash(id, cache.Number, append([]*common.Snapshot{}, cache.Snapshots...))
+			wantSelf = h
+		} else {
+			wantSelf = cache.References.Self
+		}
+		refs.Self = wantSelf
+		kind := rapid.SampledFrom([]string{"valid", "valid", "valid", "stale", "self", "unknown", "wrong-self"}).Draw(t, "ref_kind")
+		var others, stale, own []vpC20Final
+		for _, f := range finals {
+			if f.node == ci {
+				own = append(own, f)
+			} else if f.number >= before.links[f.node] {
+				others = append(others, f)
+			} else {
+				stale = append(stale, f)
+			}
+		}
+		switch kind {
+		case "valid":
+			f := others[rapid.IntRange(0, len(others)-1).Draw(t, "ext_pick")]
+			refs.External = f.hash
+		case "stale":
+			if len(stale) == 0 {
+				return
+			}
+			refs.External = stale[rapid.IntRange(0, len(stale)-1).Draw(t, "stale_pick")].hash
+		case "self":
+			refs.External = own[rapid.IntRange(0, len(own)-1).Draw(t, "own_pick")].hash
+		case "unknown":
+			refs.External = crypto.Blake3Hash([]byte(fmt.Sprint("unknown", si)))
+		case "wrong-self":
+			refs.Self = crypto.Blake3Hash([]byte(fmt.Sprint("wrong", si)))
+			refs.External = others[rapid.IntRange(0, len(others)-1).Draw(t, "ext_pick")].hash
+		}
+		ts := e.clock + uint64(rapid.IntRange(1, 2000).Draw(t, "ts_ms"))*uint64(time.Millisecond)
+		flag := rapid.Bool().Draw(t, "flag")
+		var ok bool
+		var dummy bool
+		var opErr error
+		var pan any
+		if startRound {
+			finalized := flag
+			if !finalized {
+				classes["strict"] = true
+			}
+			pan = vpKCatch(func() {
+				_, nf, d, err := chain.startNewRoundAndPersist(cache, refs, ts, finalized)
+				ok, dummy, opErr = err == nil && nf != nil, d, err
+			})
+			trace = append(trace, fmt.Sprintf("start(%d,%s,finalized=%v)=%v", ci, kind, finalized, ok))
+		} else {
+			strict := flag
+			if strict {
+				classes["strict"] = true
+			}
+			pan = vpKCatch(func() {
+				opErr = chain.updateEmptyHeadRoundAndPersist(final, cache, refs, ts, strict)
+				ok = opErr == nil
+			})
+			trace = append(trace, fmt.Sprintf("update(%d,%s,strict=%v)=%v", ci, kind, strict, ok))
+		}
+		if pan != nil {
+			t.Fatalf("round transition with %s references panicked: %v\ntrace %v", kind, pan, trace)
+		}
+		after, err := vpC20Observe(e, ci)
+		if err != nil {
+			t.Fatal(err)
+		}
+		if !ok {
+			if d := before.equal(after); d != "" {
+				t.Fatalf("rejected transition (%s: %v) changed the chain: %s\ntrace %v", kind, opErr, d, trace)
+			}
+			switch kind {
+			case "stale", "self", "unknown", "wrong-self":
+				classes["reject-"+kind] = true
+			}
+			return
+		}
+		// success
+		if kind == "stale" || kind == "self" || kind == "wrong-self" {
+			t.Fatalf("transition with %s references accepted\ntrace %v", kind, trace)
+		}
+		if startRound {
+			if after.number != before.number+1 {
+				t.Fatalf("new round number %d, previous %d", after.number, before.number)
+			}
+			classes["start-ok"] = true
+		} else {
+			if after.number != before.number {
+				t.Fatalf("reference update changed the round number %d -> %d", before.number, after.number)
+			}
+			classes["update-ok"] = true
+		}
+		if after.refs.Self != wantSelf {
+			t.Fatalf("stored self reference %s is not the hash of the previous round %s", after.refs.Self, wantSelf)
+		}
+		ext := known(after.refs.External)
+		if ext == nil {
+			t.Fatalf("stored external reference %s is not a known final round (kind %s dummy %v)\ntrace %v", after.refs.External, kind, dummy, trace)
+		}
+		if ext.node == ci {
+			t.Fatalf("stored external reference points at the chain's own round")
+		}
+		if er, _ := store.ReadRound(after.refs.External); er == nil || er.NodeId == id {
+			t.Fatalf("external round unreadable or own: %v", er)
+		}
+		if dummy || kind == "unknown" {
+			classes["dummy-external"] = true
+		}
+		for oi, l := range after.links {
+			if l < before.links[oi] {
+				t.Fatalf("stored link to chain %d decreased %d -> %d\ntrace %v", oi, before.links[oi], l, trace)
+			}
+			if l != after.slinks[oi] {
+				t.Fatalf("stored link to chain %d is %d, in-memory link %d\ntrace %v", oi, l, after.slinks[oi], trace)
+			}
+		}
+		if after.links[ext.node] < ext.number && !dummy {
+			t.Fatalf("link to chain %d is %d after referencing its round %d", ext.node, after.links[ext.node], ext.number)
+		}
+		okChains[ci]++
+		note(ci)
+}
+
 func TestVP_C20_round_links(t *testing.T) {
 	c := kit.New(t, "C20", "rapid: a real node with 7 chains; steps = grow a chain (certified snapshot through the finalization path, optionally with its own round transition) | attempt a round start (finalization-path and strict checks) | attempt an empty-head reference update (strict and not), with references drawn from {correct self + any known final round of another chain (current or older), external = a final round of the chain itself, unknown hash, wrong self}; oracle: success => stored head number is exactly one higher (round start) or unchanged (update), self reference equals the independently recomputed hash of the previous round's snapshot set, the external reference names a known final round of a different chain, stored link never decreases and equals the in-memory link; rejection (error / nil) => stored round, links and in-memory chain state identical to before; a panic from the store's assertions is a violation (references are peer supplied); non-trivial = >=2 successful transitions on >=2 chains and >=1 rejected stale/self/unknown; distinct by trace")
 	c.Require("start-ok", "update-ok", "reject-stale", "reject-self", "reject-unknown", "reject-wrong-self", "dummy-external", "strict", "nontrivial")
@@ -72,29 +251,11 @@ func TestVP_C20_round_links(t *testing.T) {
 	rapid.Check(t, func(t *rapid.T) {
 		e := vpC16Start("c20")
 		defer e.Close()
-		store := e.k.Node.persistStore
-		var finals []vpC20Final
-		for ci, id := range e.net.NodeIds {
-			ch := e.k.Node.getOrCreateChain(id)
-			finals = append(finals, vpC20Final{ci, ch.State.FinalRound.Number, ch.State.FinalRound.Hash})
+		x := &vpC20Ctx{e: e, classes: map[string]bool{}, okChains: map[int]int{}}
+		for ci := range e.net.NodeIds {
+			x.note(ci)
 		}
-		known := func(h crypto.Hash) *vpC20Final {
-			for i := range finals {
-				if finals[i].hash == h {
-					return &finals[i]
-				}
-			}
-			return nil
-		}
-		note := func(ci int) {
-			ch := e.k.Node.getOrCreateChain(e.net.NodeIds[ci])
-			if known(ch.State.FinalRound.Hash) == nil {
-				finals = append(finals, vpC20Final{ci, ch.State.FinalRound.Number, ch.State.FinalRound.Hash})
-			}
-		}
-		classes := map[string]bool{}
-		okChains := map[int]int{}
-		var trace []string
+		note, classes, okChains := x.note, x.classes, x.okChains
 		steps := rapid.IntRange(10, 40).Draw(t, "steps")
 		for si := 0; si < steps; si++ {
 			ci := rapid.IntRange(0, 6).Draw(t, "chain")
@@ -123,141 +284,10 @@ func TestVP_C20_round_links(t *testing.T) {
 					t.Fatalf("growing chain %d failed: %v %v %v", ci, fin, err, pan)
 				}
 				note(ci)
-				trace = append(trace, fmt.Sprintf("grow(%d,new=%v)", ci, newRound))
+				x.trace = append(x.trace, fmt.Sprintf("grow(%d,new=%v)", ci, newRound))
 				continue
 			}
-			before, err := vpC20Observe(e, ci)
-			if err != nil {
-				t.Fatal(err)
-			}
-			cache, final := chain.StateCopy()
-			// references
-			refs := &common.RoundLink{}
-			var wantSelf crypto.Hash
-			startRound := len(cache.Snapshots) > 0
-			if startRound {
-				_, _, h := common.ComputeRoundHash(id, cache.Number, append([]*common.Snapshot{}, cache.Snapshots...))
-				wantSelf = h
-			} else {
-				wantSelf = cache.References.Self
-			}
-			refs.Self = wantSelf
-			kind := rapid.SampledFrom([]string{"valid", "valid", "valid", "stale", "self", "unknown", "wrong-self"}).Draw(t, "ref_kind")
-			var others, stale, own []vpC20Final
-			for _, f := range finals {
-				if f.node == ci {
-					own = append(own, f)
-				} else if f.number >= before.links[f.node] {
-					others = append(others, f)
-				} else {
-					stale = append(stale, f)
-				}
-			}
-			switch kind {
-			case "valid":
-				f := others[rapid.IntRange(0, len(others)-1).Draw(t, "ext_pick")]
-				refs.External = f.hash
-			case "stale":
-				if len(stale) == 0 {
-					continue
-				}
-				refs.External = stale[rapid.IntRange(0, len(stale)-1).Draw(t, "stale_pick")].hash
-			case "self":
-				refs.External = own[rapid.IntRange(0, len(own)-1).Draw(t, "own_pick")].hash
-			case "unknown":
-				refs.External = crypto.Blake3Hash([]byte(fmt.Sprint("unknown", si)))
-			case "wrong-self":
-				refs.Self = crypto.Blake3Hash([]byte(fmt.Sprint("wrong", si)))
-				refs.External = others[rapid.IntRange(0, len(others)-1).Draw(t, "ext_pick")].hash
-			}
-			ts := e.clock + uint64(rapid.IntRange(1, 2000).Draw(t, "ts_ms"))*uint64(time.Millisecond)
-			flag := rapid.Bool().Draw(t, "flag")
-			var ok bool
-			var dummy bool
-			var opErr error
-			var pan any
-			if startRound {
-				finalized := flag
-				if !finalized {
-					classes["strict"] = true
-				}
-				pan = vpKCatch(func() {
-					_, nf, d, err := chain.startNewRoundAndPersist(cache, refs, ts, finalized)
-					ok, dummy, opErr = err == nil && nf != nil, d, err
-				})
-				trace = append(trace, fmt.Sprintf("start(%d,%s,finalized=%v)=%v", ci, kind, finalized, ok))
-			} else {
-				strict := flag
-				if strict {
-					classes["strict"] = true
-				}
-				pan = vpKCatch(func() {
-					opErr = chain.updateEmptyHeadRoundAndPersist(final, cache, refs, ts, strict)
-					ok = opErr == nil
-				})
-				trace = append(trace, fmt.Sprintf("update(%d,%s,strict=%v)=%v", ci, kind, strict, ok))
-			}
-			if pan != nil {
-				t.Fatalf("round transition with %s references panicked: %v\ntrace %v", kind, pan, trace)
-			}
-			after, err := vpC20Observe(e, ci)
-			if err != nil {
-				t.Fatal(err)
-			}
-			if !ok {
-				if d := before.equal(after); d != "" {
-					t.Fatalf("rejected transition (%s: %v) changed the chain: %s\ntrace %v", kind, opErr, d, trace)
-				}
-				switch kind {
-				case "stale", "self", "unknown", "wrong-self":
-					classes["reject-"+kind] = true
-				}
-				continue
-			}
-			// success
-			if kind == "stale" || kind == "self" || kind == "wrong-self" {
-				t.Fatalf("transition with %s references accepted\ntrace %v", kind, trace)
-			}
-			if startRound {
-				if after.number != before.number+1 {
-					t.Fatalf("new round number %d, previous %d", after.number, before.number)
-				}
-				classes["start-ok"] = true
-			} else {
-				if after.number != before.number {
-					t.Fatalf("reference update changed the round number %d -> %d", before.number, after.number)
-				}
-				classes["update-ok"] = true
-			}
-			if after.refs.Self != wantSelf {
-				t.Fatalf("stored self reference %s is not the hash of the previous round %s", after.refs.Self, wantSelf)
-			}
-			ext := known(after.refs.External)
-			if ext == nil {
-				t.Fatalf("stored external reference %s is not a known final round (kind %s dummy %v)\ntrace %v", after.refs.External, kind, dummy, trace)
-			}
-			if ext.node == ci {
-				t.Fatalf("stored external reference points at the chain's own round")
-			}
-			if er, _ := store.ReadRound(after.refs.External); er == nil || er.NodeId == id {
-				t.Fatalf("external round unreadable or own: %v", er)
-			}
-			if dummy || kind == "unknown" {
-				classes["dummy-external"] = true
-			}
-			for oi, l := range after.links {
-				if l < before.links[oi] {
-					t.Fatalf("stored link to chain %d decreased %d -> %d\ntrace %v", oi, before.links[oi], l, trace)
-				}
-				if l != after.slinks[oi] {
-					t.Fatalf("stored link to chain %d is %d, in-memory link %d\ntrace %v", oi, l, after.slinks[oi], trace)
-				}
-			}
-			if after.links[ext.node] < ext.number && !dummy {
-				t.Fatalf("link to chain %d is %d after referencing its round %d", ext.node, after.links[ext.node], ext.number)
-			}
-			okChains[ci]++
-			note(ci)
+			x.attempt(t, ci, si)
 		}
 		rejected := classes["reject-stale"] || classes["reject-self"] || classes["reject-unknown"]
 		total := 0
@@ -272,10 +302,152 @@ func TestVP_C20_round_links(t *testing.T) {
 		if nt {
 			cl = append(cl, "nontrivial")
 		}
+		trace := x.trace
 		c.Case(fmt.Sprint(trace), nt, cl...)
 		if len(trace) > 14 {
 			trace = trace[:14]
 		}
 		c.Sample(map[string]any{"trace_head": trace, "successful_transitions": total, "chains": len(okChains)})
+	})
+}
+
+// vpC20Shift inserts prefix before a drawn workload (step indexes in Prev move).
+func vpC20Shift(prefix, steps []vpCWStep) []vpCWStep {
+	out := append([]vpCWStep{}, prefix...)
+	for _, st := range steps {
+		switch st.Kind {
+		case "transfer", "custodian", "pledge", "accept":
+			st.Prev += len(prefix)
+		}
+		out = append(out, st)
+	}
+	if len(steps) > 0 {
+		out[0].Self, out[len(prefix)].Self = steps[0].Self, 0
+	}
+	return out
+}
+
+// The same oracle on a ledger with a membership history: an 8th node pledges
+// and is accepted, the oldest node is removed, and the process restarts, so
+// that the in-memory links are the ones loadState rebuilds from the store for
+// accepted and for removed nodes alike.
+func TestVP_C20_membership_restart(t *testing.T) {
+	c := kit.New(t, "C20", "rapid: a real node runs a generated multi-chain workload (deposits, transfers, batches, round transitions, custodian updates) that first makes 2..4 chains reference increasing final rounds of the future removal candidate, then funds and pledges an 8th node, accepts it >= 12 h later and (2 of 3) removes the oldest node in the next window; then (3 of 4) the process is stopped and restarted on the same store; then 8..20 round starts / empty-head reference updates are attempted on drawn chains with references drawn as in TestVP_C20_round_links (valid, stale, self, unknown, wrong self; the removed node's and the new node's rounds are among the candidates); oracle: identical to TestVP_C20_round_links (accepted => number +1 / unchanged, self = recomputed hash, external = known final round of another chain, stored link never decreases and equals the in-memory link; rejected => stored round, links and chain state unchanged; stale/self/wrong-self never accepted; no panic); non-trivial = restarted after a removal and >=1 stale reference to the removed node's chain judged; distinct by trace")
+	c.Require("restarted", "removed-node", "stale-to-removed-chain", "reject-stale", "update-ok", "attempt-on-new-chain")
+	kit.SetChecks(kit.N(24, 900))
+	rapid.Check(t, func(t *rapid.T) {
+		mode := rapid.SampledFrom([]int{2, 4, 4}).Draw(t, "mode")
+		drawn := vpCWDrawMode(t, mode)
+		net := vpCWNewNet("c20m")
+		dir := vpKTempDir("c20m")
+		defer os.RemoveAll(dir)
+		self := vpCWSelfOf(drawn)
+		k, err := vpKStart(net, dir, self, nil)
+		if err != nil {
+			t.Fatalf("start: %v", err)
+		}
+		e := &vpC16Env{k: k, net: net, dir: dir}
+		defer func() { e.k.Stop() }()
+		// the node the kernel will remove: the oldest accepted one
+		victim := -1
+		cand := k.Node.NodesListWithoutState(vpCWBase(net), true)[0]
+		for i, id := range net.NodeIds {
+			if id == cand.IdForNetwork {
+				victim = i
+			}
+		}
+		// prefix: the victim's chain closes rounds, other chains reference them
+		var prefix []vpCWStep
+		dep := func(chain int, newRound bool, ext int) {
+			prefix = append(prefix, vpCWStep{Kind: "deposit", Chain: chain, Asset: 1, Owner: len(prefix) % 4, NewRound: newRound, Ext: ext,
+				Dt: uint64(rapid.IntRange(1, 900).Draw(t, "pdt_ms")) * uint64(time.Millisecond)})
+		}
+		levels := rapid.IntRange(1, 3).Draw(t, "levels")
+		for l := 0; l < levels; l++ {
+			dep(victim, false, 0)
+			dep(victim, true, (victim+1+rapid.IntRange(0, 5).Draw(t, "vext"))%7)
+			for j, n := 0, rapid.IntRange(1, 3).Draw(t, "referrers"); j < n; j++ {
+				a := (victim + 1 + rapid.IntRange(0, 5).Draw(t, "referrer")) % 7
+				dep(a, false, 0)
+				dep(a, true, victim)
+			}
+		}
+		steps := vpC20Shift(prefix, drawn)
+		run := vpCWNew(k, steps)
+		x := &vpC20Ctx{e: e, classes: map[string]bool{}, okChains: map[int]int{}}
+		noteAll := func() {
+			for ci := range net.NodeIds {
+				x.note(ci)
+			}
+		}
+		noteAll()
+		for i := range steps {
+			var eerr error
+			if p := vpKCatch(func() { eerr = run.exec(i) }); p != nil || eerr != nil {
+				t.Fatalf("workload step %d (%s): %v %v", i, steps[i].Kind, p, eerr)
+			}
+			noteAll()
+		}
+		e.clock = run.clock
+		removed := false
+		for _, cn := range k.Node.NodesListWithoutState(^uint64(0)>>1, false) {
+			if cn.State == common.NodeStateRemoved {
+				removed = true
+				x.classes["removed-node"] = true
+			}
+		}
+		linkToVictim := false
+		for ci, id := range net.NodeIds {
+			if ci == victim {
+				continue
+			}
+			if l, _ := k.Node.persistStore.ReadLink(id, net.NodeIds[victim]); l > 0 {
+				linkToVictim = true
+			}
+		}
+		if rapid.IntRange(0, 3).Draw(t, "restart") != 0 {
+			e.k.Stop()
+			k2, err := vpKStart(net, dir, self, nil)
+			if err != nil {
+				t.Fatalf("restart: %v", err)
+			}
+			e.k = k2
+			x.classes["restarted"] = true
+		}
+		var live []int
+		for ci, id := range net.NodeIds {
+			if ch := e.k.Node.getOrCreateChain(id); ch != nil && ch.State != nil {
+				live = append(live, ci)
+			}
+		}
+		n := rapid.IntRange(8, 20).Draw(t, "attempts")
+		staleToVictim := false
+		for si := 0; si < n; si++ {
+			ci := live[rapid.IntRange(0, len(live)-1).Draw(t, "chain")]
+			if ci == vpCWJoin {
+				x.classes["attempt-on-new-chain"] = true
+			}
+			before := len(x.trace)
+			x.attempt(t, ci, si)
+			if len(x.trace) > before && linkToVictim && removed && ci != victim && strings.Contains(x.trace[len(x.trace)-1], "stale") {
+				// a stale candidate exists only for chains with a positive link; with
+				// the prefix above these are links to the victim's chain
+				staleToVictim = true
+			}
+		}
+		if staleToVictim {
+			x.classes["stale-to-removed-chain"] = true
+		}
+		var cl []string
+		for k := range x.classes {
+			cl = append(cl, k)
+		}
+		sort.Strings(cl)
+		c.Case(fmt.Sprint(vpCWDescribe(steps), x.trace), x.classes["restarted"] && removed && staleToVictim, cl...)
+		tr := x.trace
+		if len(tr) > 12 {
+			tr = tr[:12]
+		}
+		c.Sample(map[string]any{"workload": vpCWDescribe(steps), "attempts": tr, "classes": cl})
 	})
 }
